@@ -581,6 +581,44 @@ def f35():
     return not bad, f"NaN recorded: {bad}"
 
 
+@trigger("F37", ["C20", "C08"])
+def f37():
+    """a rebuilding event with a negative share (shares adding up to 1) or a non-positive factor, small enough for no runtime guard to
+    trip, is rejected; if it is accepted the reconstruction demand recorded is negative"""
+    tb = base_table()
+    cfg = base_cfg()
+    out = []
+    for over in ({"reb_sectors": {"build": 1.5, "manu": -0.5}}, {"factor": -1.0}, {"factor": 0.0}):
+        ev = reb_event(tb, cfg)
+        ev["impact"] = {k: v * 1e-3 for k, v in ev["impact"].items()}
+        ev.update(over)
+        try:
+            sim = run_loop(mk_sc(tb, cfg, [ev], T=8))
+            out.append(f"{over}: accepted, min rebuild demand {float(np.nanmin(sim.rebuild_demand.to_numpy(dtype=float))):.3g}")
+        except Exception:
+            pass
+    return not out, "; ".join(out) or "rejected"
+
+
+@trigger("F38", ["C20", "C07"])
+def f38():
+    """a capital vector (Series) without a value for one industry, or an array with a NaN entry, is rejected; accepted, it gives NaN records
+    without any event"""
+    tb = base_table()
+    cfg0 = base_cfg()
+    K = [float(v) for v in capital_of(tb, cfg0)]
+    out = []
+    for cap in ({"kind": "series", "values": K, "drop": 1}, {"kind": "ndarray", "values": [float("nan")] + K[1:]}):
+        try:
+            sim = run_loop(mk_sc(tb, base_cfg(capital=cap), [], T=4))
+            n = int(np.isnan(sim.production_capacity.to_numpy(dtype=float)[:4]).sum())
+            if n:
+                out.append(f"{cap['kind']}: accepted, {n} NaN cells in production_capacity")
+        except Exception:
+            pass
+    return not out, "; ".join(out) or "rejected"
+
+
 @trigger("F36", ["C01", "C19"])
 def f36():
     """an event-free run of 300 steps with alt orders, the base class, alpha_max = 2 and alpha_tau = one step stays at the equilibrium (known finding)"""
